@@ -9,6 +9,7 @@ import (
 	"path/filepath"
 	"regexp"
 	"runtime"
+	"runtime/pprof"
 	"sort"
 	"strconv"
 	"strings"
@@ -29,9 +30,15 @@ func main() {
 	replay := flag.String("replay", "", "replay a counterexample file natively")
 	noReplay := flag.Bool("noreplay", false, "do not replay counterexamples natively")
 	vdir := flag.String("verif", "/verif", "verif directory")
+	cpuprof := flag.String("cpuprofile", "", "write a CPU profile")
 	noEvidence := flag.Bool("noevidence", false, "do not write the evidence file")
 	selftest := flag.Bool("selftest", false, "run only the engine self-test")
 	flag.Parse()
+	if *cpuprof != "" {
+		f, _ := os.Create(*cpuprof)
+		pprof.StartCPUProfile(f)
+		defer pprof.StopCPUProfile()
+	}
 	verifDir = *vdir
 	seed := int64(0)
 	if s := os.Getenv("VERIF_SEED"); s != "" {
@@ -109,6 +116,7 @@ func main() {
 		return
 	}
 	results := runProperty(p, spec, RunOptions{Prop: *prop, Tier: *tier, Workers: *workers, Only: *only, Verbose: *verbose, Seed: seed})
+	pprof.StopCPUProfile()
 	code := report(p, spec, results, *prop, *tier, seed, *repo, scratch, ov, t0, stN, *noReplay, *noEvidence || *only != "")
 	os.RemoveAll(scratch)
 	os.Exit(code)
@@ -389,6 +397,24 @@ func report(p *Program, spec *PropSpec, results []*ItemResult, prop, tier string
 	// replay counterexamples
 	replays := 0
 	var newViol, knownViol, spurious []Violation
+	// replay budget: one counterexample per distinct (harness, assertion) first, at most maxReplays native runs; a
+	// counterexample that was not replayed takes the verdict of the replayed one with the same id
+	const maxReplays = 10
+	{
+		seen := map[string]bool{}
+		var first, rest []Violation
+		for _, v := range viols {
+			k := v.Harness + "|" + v.ID
+			if !seen[k] {
+				seen[k] = true
+				first = append(first, v)
+			} else {
+				rest = append(rest, v)
+			}
+		}
+		viols = append(first, rest...)
+	}
+	verdict := map[string]string{}
 	for i := range viols {
 		v := &viols[i]
 		if k := matchKnown(known, prop, v); k != nil {
@@ -404,13 +430,34 @@ func report(p *Program, spec *PropSpec, results []*ItemResult, prop, tier string
 		}
 		writeJSON(file, v)
 		if h != nil && h.Native && !noReplay {
+			vk := v.Harness + "|" + v.ID
+			if prev, ok := verdict[vk]; ok && (replays >= maxReplays || prev == "reproduced") {
+				v.Status = prev + " (same assertion as a replayed counterexample; not replayed itself)"
+				if prev == "reproduced" {
+					if len(newViol) < 40 {
+						newViol = append(newViol, *v)
+					}
+				} else {
+					spurious = append(spurious, *v)
+				}
+				continue
+			}
+			if replays >= maxReplays {
+				v.Status = "engine-only (replay budget exhausted)"
+				newViol = append(newViol, *v)
+				continue
+			}
 			ok, out := nativeReplay(repo, scratch, ov, v)
 			replays++
 			if ok {
 				v.Status = "reproduced"
+				verdict[vk] = "reproduced"
 				newViol = append(newViol, *v)
 			} else {
 				v.Status = "spurious"
+				if _, had := verdict[vk]; !had {
+					verdict[vk] = "spurious"
+				}
 				v.Msg += " || native replay: " + lastLines(out, 6)
 				spurious = append(spurious, *v)
 			}
@@ -480,7 +527,7 @@ func report(p *Program, spec *PropSpec, results []*ItemResult, prop, tier string
 			if r == nil {
 				continue
 			}
-			items = append(items, map[string]interface{}{"harness": r.Item.Spec.Func, "args": r.Item.Args, "paths": r.Paths, "paths_ok": r.PathsOK, "asserts": r.Asserts, "asserts_proved_unsat": r.AssertsProved, "asserts_trivially_true": r.AssertsTrivial, "queries": r.Solver.Queries, "solver_s": r.Solver.Time.Seconds(), "wall_s": r.Wall.Seconds(), "violations": len(r.Violations), "inconclusive": len(r.Inconclusive)})
+			items = append(items, map[string]interface{}{"harness": r.Item.Spec.Func, "args": r.Item.Args, "paths": r.Paths, "paths_ok": r.PathsOK, "asserts": r.Asserts, "asserts_proved_unsat": r.AssertsProved, "asserts_trivially_true": r.AssertsTrivial, "queries": r.Solver.Queries, "solver_s": r.Solver.Time.Seconds(), "wall_s": r.Wall.Seconds(), "violations": len(r.Violations), "inconclusive": len(r.Inconclusive), "paths_cut_outside_claim": r.Cuts})
 		}
 		var hb []map[string]string
 		for _, h := range spec.Harnesses {
